@@ -943,7 +943,8 @@ fn gen_c05(ctx: &mut Ctx) {
                 _ => format!("HE.{}", rng.below(65536)),
             })
             .collect();
-        let line = format!("WIRES {}", msgs.join(" "));
+        // every fourth stream is preceded by a write of another frame to a writer that fails part-way
+        let line = format!("WIRES {}{}", if k % 4 == 1 { "! " } else { "" }, msgs.join(" "));
         let res = ctx.case(line.clone(), true, "stream-of-messages");
         let want = format!("{} | left=0", msgs.iter().map(|m| format!("OK {}", m)).collect::<Vec<_>>().join(" ; "));
         ctx.monitor(res == want, "C05-roundtrip", &line[..line.len().min(300)], &res[..res.len().min(200)]);
@@ -953,6 +954,14 @@ fn gen_c05(ctx: &mut Ctx) {
         let line = format!("MT {} {}", threads, iters);
         let res = ctx.case(line.clone(), true, "concurrent");
         ctx.monitor(res == "OK", "C05-roundtrip", &line, &res);
+    }
+    // data chunks whose offset + length crosses 65536
+    for off in [0xFFFFu32, 0xFFFE, 0xFFF8, 0xFFF0, 0xFF02, 0xFF01, 0xFF00, 0xFEFF, 0x8000] {
+        for len in [0usize, 1, 2, 3, 8, 15, 16, 17, 254, 255] {
+            let m = format!("SD.{}.{}", off, hex_of_bytes(&rng.bytes(len)));
+            wire_case(ctx, m.clone(), "SD-offset-near-top");
+            inj(ctx, &m);
+        }
     }
     // short data blocks that collide with other kinds' (type, byte) pairs if the type were ignored
     for b in 0..=255u16 {
@@ -1055,8 +1064,22 @@ fn gen_c07(ctx: &mut Ctx) {
                 coords.push((w - 1, h - 1));
                 coords.push((0, 0));
             }
-            for chunk in coords.chunks(32) {
-                let mut line = format!("PG {} {} N.9", w, h);
+            for (ci, chunk) in coords.chunks(32).enumerate() {
+                // on a fresh page, and on pages built over borrowed / owned buffers whose pixel area is blank but whose
+                // header and padding bytes are arbitrary (they must be exposed as given and survive every operation)
+                let src = match ci % 3 {
+                    0 => "N.9".to_string(),
+                    k => {
+                        let total = total_bytes(w64, h64) as usize;
+                        let data = data_bytes(w64, h64) as usize;
+                        let mut b = rng.bytes(total);
+                        for x in b[4..data].iter_mut() {
+                            *x = 0;
+                        }
+                        format!("{}.{}", if k == 1 { "B" } else { "O" }, hex_of_bytes(&b))
+                    }
+                };
+                let mut line = format!("PG {} {} {}", w, h, src);
                 // on, on again (nothing may change), off, off again (nothing may change)
                 for (x, y) in chunk {
                     line.push_str(&format!(" S.{}.{}.1 S.{}.{}.1 S.{}.{}.0 S.{}.{}.0", x, y, x, y, x, y, x, y));
@@ -1081,6 +1104,15 @@ fn gen_c07(ctx: &mut Ctx) {
                     ok = false;
                     detail = "the page rebuilt from its own bytes does not equal it (==, hash)".to_string();
                 }
+                if ok && !src.starts_with("N.") {
+                    // every pixel was switched back off: the page must expose exactly the bytes it was built from
+                    let given = &src[2..];
+                    let end = res.rsplit(' ').nth(1).unwrap_or("");
+                    if end != given {
+                        ok = false;
+                        detail = "the page no longer exposes the bytes it was built from (header or padding changed)".to_string();
+                    }
+                }
                 ctx.monitor(ok, "C07-pixel-location", &line, &detail);
             }
         }
@@ -1099,6 +1131,15 @@ fn gen_c07_extreme(ctx: &mut Ctx) {
         want.resize(data_bytes(w64, h64) as usize, 0);
         want.resize(total_bytes(w64, h64) as usize, 0xFF);
         ctx.monitor(res == hex_of_bytes(&want), "C07-new-layout", &line, &res[..res.len().min(60)]);
+    }
+    // large pages, described by their length and byte counts only (PNL): sizes around 2^24 rows, beyond 65535 blocks of
+    // 16 bytes, beyond 2^16 columns
+    for (w, h) in [(1u32, 16_777_217u32), (1, 16_777_225), (2, 16_777_209), (1, 33_554_434), (65535, 128), (65536, 128), (65535, 129), (70000, 120), (1_048_560, 8), (1_048_561, 8), (131072, 8), (3, 2_796_203)] {
+        let (w64, h64) = (w as u64, h as u64);
+        let line = format!("PNL 6 {} {}", w, h);
+        let res = ctx.case(line.clone(), true, "large-page");
+        let want = format!("len={} zeros={} ff={} first=6.16.0.0", total_bytes(w64, h64), data_bytes(w64, h64) - 4, total_bytes(w64, h64) - data_bytes(w64, h64));
+        ctx.monitor(res == want, "C07-new-layout", &line, &res);
     }
     // from_bytes where the expected size exceeds 2^32: a small buffer is simply the wrong length
     for (w, h) in [(65536u32, 524288u32), (m, m), (m, 8), (1 << 29, 8), ((1 << 29) + 1, 8), (m, 1), (2, m), (1 << 16, 1 << 19)] {
@@ -1443,7 +1484,23 @@ fn gen_c19(ctx: &mut Ctx) {
         page[0] = 9;
         let block = &block_hex[i];
         let other = &block_hex[(i + 5) % 11];
+        // a complete earlier life as ANOTHER type, with a page stored, ended by a reset or a goodbye
+        let (ow, oh) = SIGN_SIZES[(i + 5) % 11];
+        let ototal = total_bytes(ow as u64, oh as u64) as usize;
+        let opage = vec![0x11u8; ototal];
+        let mut life: Vec<String> = vec!["RO.7.RCF".into(), format!("SD.0.{}", other), "DC.1".into(), "RO.7.RPX".into()];
+        for (k, c) in opage.chunks(16).enumerate() {
+            life.push(format!("SD.{}.{}", k * 16, hex_of_bytes(c)));
+        }
+        life.push(format!("DC.{}", (ototal + 15) / 16));
+        life.push("PC.7".into());
+        let mut life_reset = life.clone();
+        life_reset.extend(["RO.7.SRS".to_string(), "RO.7.FRS".to_string()]);
+        let mut life_bye = life.clone();
+        life_bye.push("GB.7".into());
         let preludes: Vec<(Vec<String>, &str)> = vec![
+            (life_reset, "earlier-life-as-other-type-then-reset"),
+            (life_bye, "earlier-life-as-other-type-then-goodbye"),
             (vec!["RO.7.RCF".into(), format!("SD.0.{}", block), "DC.2".into(), "QS.7".into()], "failed-count-then-retry"),
             (vec!["RO.7.RCF".into(), format!("SD.0.{}", block), format!("SD.0.{}", block), "DC.1".into(), "QS.7".into()], "duplicated-block-then-retry"),
             (vec!["RO.7.RCF".into(), format!("SD.0.{}", other), "DC.3".into(), "QS.7".into()], "failed-other-type-then-retry"),
@@ -1469,6 +1526,47 @@ fn gen_c19(ctx: &mut Ctx) {
             let want_pages = format!("# {}.{}.{}", w, h, hex_of_bytes(&page));
             ctx.monitor(res.ends_with(&want_pages) && res.contains(&format!("RS.7.PRX/PRX.{}.1.", i)), "C19-vsign-derives", &line[..line.len().min(300)], &res[..res.len().min(120)]);
         }
+    }
+    // more than one block inside ONE configuration transfer that succeeds (count = 2): the LAST block decides
+    for i in 0..11usize {
+        let (w, h) = SIGN_SIZES[i];
+        let total = total_bytes(w as u64, h as u64) as usize;
+        let mut page = vec![0x5Bu8; total];
+        page[0] = 4;
+        for first in [i, (i + 3) % 11, (i + 7) % 11] {
+            let mut msgs: Vec<String> = vec!["RO.7.RCF".into(), format!("SD.0.{}", block_hex[first]), format!("SD.0.{}", block_hex[i]), "DC.2".into(), "QS.7".into(), "RO.7.RPX".into()];
+            for (k, c) in page.chunks(16).enumerate() {
+                msgs.push(format!("SD.{}.{}", k * 16, hex_of_bytes(c)));
+            }
+            msgs.push(format!("DC.{}", (total + 15) / 16));
+            msgs.push("QS.7".to_string());
+            let line = format!("VSL 7 M {}", msgs.join(" "));
+            let res = ctx.case(line.clone(), true, "two-blocks-in-one-transfer");
+            let want_pages = format!("# {}.{}.{}", w, h, hex_of_bytes(&page));
+            ctx.monitor(res.ends_with(&want_pages) && res.contains(&format!("RS.7.PRX/PRX.{}.1.", i)), "C19-vsign-derives", &line[..line.len().min(300)], &res[..res.len().min(120)]);
+        }
+    }
+    // two signs on one bus configured one after the other ("configure all, then load all"): each derives its size
+    // from its own block
+    for i in 0..11usize {
+        let j = (i + 4) % 11;
+        let mut msgs: Vec<String> = vec!["RO.7.RCF".into(), format!("SD.0.{}", block_hex[i]), "DC.1".into(), "RO.9.RCF".into(), format!("SD.0.{}", block_hex[j]), "DC.1".into()];
+        for (a, t) in [(7u16, i), (9u16, j)] {
+            let (w, h) = SIGN_SIZES[t];
+            let total = total_bytes(w as u64, h as u64) as usize;
+            let mut page = vec![0x6Du8; total];
+            page[0] = if a == 7 { 4 } else { 8 };
+            msgs.push(format!("RO.{}.RPX", a));
+            for (k, c) in page.chunks(16).enumerate() {
+                msgs.push(format!("SD.{}.{}", k * 16, hex_of_bytes(c)));
+            }
+            msgs.push(format!("DC.{}", (total + 15) / 16));
+            msgs.push(format!("QS.{}", a));
+        }
+        let line = format!("BUS 2 7 M 9 A {}", msgs.join(" "));
+        let res = ctx.case(line.clone(), true, "two-signs-configured-in-turn");
+        let last = res.split(' ').filter(|s| s.contains("RS.9.")).last().unwrap_or("");
+        ctx.monitor(last.contains(&format!("PRX.{}.1.", i)) && last.contains(&format!("PRX.{}.1.", j)), "C19-vsign-derives", &line[..line.len().min(300)], &last[..last.len().min(160)]);
     }
     // all lengths 0..=40 over all byte values; valid prefixes included
     for len in 0..=40usize {
